@@ -2,7 +2,7 @@ package assign
 
 import (
 	"fmt"
-	"math"
+	"math/bits"
 
 	"github.com/pkg/errors"
 	"github.com/ysugimoto/falco/v2/interpreter/value"
@@ -26,13 +26,8 @@ func LeftRotate(left, right value.Value) error {
 	}
 	// INTEGER is 64 bits wide so that rotate count is taken modulo 64
 	n := rv.Value % 64
-	v := (lv.Value << n) | (lv.Value >> (64 - n))
-	if int64(v) > int64(math.MaxInt64) {
-		lv.Value = 0
-		lv.IsPositiveInf = true
-	} else {
-		lv.Value = v
-	}
+	// Rotate the 64 bit pattern: a signed right shift would fill with the sign bit
+	lv.Value = int64(bits.RotateLeft64(uint64(lv.Value), int(n)))
 	return nil
 }
 
@@ -54,12 +49,7 @@ func RightRotate(left, right value.Value) error {
 	}
 	// INTEGER is 64 bits wide so that rotate count is taken modulo 64
 	n := rv.Value % 64
-	v := (lv.Value >> n) | (lv.Value << (64 - n))
-	if int64(v) > int64(math.MaxInt64) {
-		lv.Value = 0
-		lv.IsPositiveInf = true
-	} else {
-		lv.Value = v
-	}
+	// Rotate the 64 bit pattern: a signed right shift would fill with the sign bit
+	lv.Value = int64(bits.RotateLeft64(uint64(lv.Value), -int(n)))
 	return nil
 }
